@@ -81,8 +81,9 @@ def main():
         res["caught_by"] = sorted(c for c, runs in caught.items() if any(r["exit"] == 1 and r["violations"] for r in runs))
         dst = os.path.join(os.environ.get("SEED_DEST", VERIF), "seeded", a.sid)
         os.makedirs(dst, exist_ok=True)
-        shutil.copy(patch, os.path.join(dst, "patch.diff"))
-        shutil.copy(demo, os.path.join(dst, "demo.py"))
+        for src_f, name in ((patch, "patch.diff"), (demo, "demo.py")):
+            if os.path.abspath(src_f) != os.path.abspath(os.path.join(dst, name)):
+                shutil.copy(src_f, os.path.join(dst, name))
         meta = {}
         try:
             meta = json.load(open(os.path.join(a.src, "meta.json")))
